@@ -159,6 +159,8 @@ def run(chk):
 
     # ---- R2
     r2(chk, fx)
+    from sa.props.c14 import call_pairing_rule
+    call_pairing_rule(chk, by_norm, rid='C13-R4', diverging_only=True)
     return ('Per-version specialisation of the code generator (typed HIR; version predicates evaluated for each of 3.7-3.11, dead branches pruned, reachability recomputed) '
             'with every opcode operand of write_instr checked against dis.opmap of that version; unit rules for jump operands; argument-flow rule for --py-command. '
             'That the emitted sequence computes the same result on every version is a run-time fact and is not decided.'), {}
